@@ -84,7 +84,57 @@ def sensitivity(patterns):
     return 0 if ok else 1
 
 
+def simfs(argv):
+    """Keep the SimFS model honest: the same qaptools histories in the simulated directory (default
+    buffer capacity) and in a fresh interpreter on a real scratch directory with the executable fakes;
+    every file left behind and every tool invocation (arguments, status, what the tool saw) must agree."""
+    import random
+    from . import checks, exitsim as X, qapsim as Q, plan as P
+    n = int(argv[0]) if argv else 40
+    chk = E.get_check("C12")
+    bad = 0
+    done = 0
+    for i in range(n):
+        rng = E.rng_for(E.master_seed(), "C12x", i)
+        case = chk.gen(rng, i, "quick")
+        case["faults"].pop("write_fault", None)
+        case["faults"]["bufcap"] = 8192
+        tf = case["faults"].get("toolfail")
+        fs = Q.SimFS(8192)
+        r1 = checks.QapRun(case["plan"], fs, case["seed"], faults=case["faults"]).run()
+        if r1.outcome != "completed":
+            continue
+        sim_files = fs.snapshot()
+        sim_calls = [(c["tool"], c["argv"], c.get("rc"), c.get("eqs_digest"), c.get("equations"), c.get("functions"))
+                     for c in r1.calls]
+        body = ("from pysnark.qaptools.backend import subqap, exportcomm, importcomm\n"
+                "_rt.bitlength = %d\n" % case["plan"]["cfg"]["bitlength"]) + X.body_source(case["plan"])
+        env = X.child_env("qaptools")
+        if tf:
+            env["VERIF_TOOL_FAIL"] = "%s:%d" % (tf[0], tf[1])
+        r = X.run_child(body, {"inputs": [x["v"] for x in case["plan"]["inputs"]], "random_seed": case["seed"]}, env)
+        real_files = {k: v.decode() for k, v in r["after"].items()}
+        real_calls = [(c["tool"], c["argv"], c.get("rc"), c.get("eqs_digest"), c.get("equations"), c.get("functions"))
+                      for c in r["tools"]]
+        real_calls = [(t, [os.path.basename(a) if a.startswith("/") else a for a in argv], rc, d, e, f)
+                      for (t, argv, rc, d, e, f) in real_calls]
+        done += 1
+        if sim_files != real_files or sim_calls != real_calls:
+            bad += 1
+            df = [k for k in set(sim_files) | set(real_files) if sim_files.get(k) != real_files.get(k)]
+            print("SIMFS-MISMATCH case %d: files differing %r; calls sim=%r real=%r" % (
+                i, df[:4], [c[0] for c in sim_calls], [c[0] for c in real_calls]))
+            for k in df[:1]:
+                print("--- sim %s\n%s\n--- real\n%s" % (k, sim_files.get(k), real_files.get(k)))
+            if r["stderr"]:
+                print(r["stderr"][-600:])
+    print("simfs self-test: %d histories compared, %d mismatches" % (done, bad))
+    return 0 if bad == 0 and done > 0 else 1
+
+
 def main(argv):
+    if argv and argv[0] == "simfs":
+        return simfs(argv[1:])
     if argv and argv[0] == "determinism":
         return determinism(argv[1:])
     if argv and argv[0] == "sensitivity":
